@@ -247,7 +247,13 @@ func replaySystemOne(cfg ReplayConfig, res *core.Result, bh []SysStep, raw json.
 					if g == e {
 						continue
 					}
-					if g == "app" && e != "app" { // in this model every expected table is ground truth
+					polyB := func(q int) bool { return q < n && (kinds[q] == "otherpoly" || kinds[q] == "othersession") }
+					genuine := resps[i] != nil && resps[i].Approved
+					if g == "app" && e != "app" && genuine && polyB(p) != polyB(i) {
+						vio("approval-of-other-polynomial", fmt.Sprintf("%s %d counts the approval verifier %d gave to a deal on another polynomial", pname(p), p, i), map[string]any{"got": obsAll})
+						break
+					}
+					if g == "app" && e != "app" && !genuine { // nobody approved: the entry is not backed by any approval
 
 						vio("counted-as-approval", fmt.Sprintf("%s %d holds an approval for verifier %d (expected %q)", pname(p), p, i, e), map[string]any{"got": obsAll})
 						break
